@@ -47,6 +47,44 @@ A flush that does not return `true` within 120 s makes the scenario inconclusive
 the set (open / create / write / delete / listing failed) excuse rule (7) and the "all of them" half
 of (3) for that round and are counted. The temporary directory is removed by a drop guard, also when
 the scenario panics.
+
+Second part - NEIGHBOURS THAT CHANGE THE DIRECTORY CONCURRENTLY (`run_churn`; 4 quick / 24 thorough
+scenarios of 200 / 600 rolls). In the scenarios above everything else in the directory is static while
+the set works (the only concurrent writer is the optional live sibling set). Here three writer threads
+keep creating, deleting and re-creating their own foreign files in the same directory - a cache
+(`cache-NNNN.bin` / `thumb-NNNN.tmp`: delete if present, else re-create), a cleanup job (builds up
+150-500 `job-*.part` files, sweeps them away, again) and "another file set rolling" (sibling-set names
+whose prefix extends ours plus look-alikes of our own names that are not members: id not hex, longer
+extension, short counter) - and a fourth thread lists the directory read-only the way `read_dir` +
+`metadata` does. With the static bulk (150-1600 files nobody touches) and the pre-existing contents of
+the first part the directory holds roughly 600-2800 foreign entries. The set under test has a fixed-size
+writer and gets one record of more than half a file per round, so EVERY batch rolls: a directory
+listing, retention and a new file per acknowledged flush, each overlapping the neighbours' deletions
+(an entry returned by readdir may be gone when it is stat'ed); every 25-64 rolls the emitter is
+dropped and started again on the same directory, and the first round after that fits on top of the
+member with the greatest name. The neighbours run from just before the emit until `blocking_flush`
+has returned; then they are paused (each thread parks and acknowledges), and only then the
+directory is read back - neighbours never use names with the set's member grammar and keep a model of
+their own files, so every verdict is exact:
+ (a) at most `max_files` members after every acknowledged flush
+     (`C11:realfs:more-than-max-files:while-neighbours-churn-the-directory`);
+ (b) deletions take the smallest names first, i.e. the members with the greatest names are retained;
+ (c) the acknowledged record is in exactly one member, once; members are append-only, only the file
+     that holds the record grows, nothing exceeds the size limit, new names carry a period of the
+     round's wall-clock window;
+ (d) after a restart with `reuse_files(true)` the member with the greatest name - period current for
+     the whole round, room for the round plus the recovery separator - is appended to and no new file
+     is started (the documented behaviour of `reuse_files`; judged here because a listing that loses
+     entries shows up as exactly this);
+ (e) every 50 rolls and at the end the WHOLE directory is compared: static foreign entries byte-identical,
+     every neighbour's file present with the bytes its owner wrote, nothing else that is not a member;
+     a neighbour that finds one of its own files gone when it goes to delete it reports that at once.
+Nothing is excused by the set's failure metrics here (the neighbours are benign: no listing, open or
+delete of the set has a reason to fail); they are quoted in the witness. Evidence: rolls, rolls with
+neighbour deletions between emit and flush and how many, the lister's count of listings in which an
+entry vanished between readdir and stat. A scenario in which no neighbour deleted anything between any
+emit and its flush is inconclusive; the neighbour threads are stopped and joined by a drop guard that
+runs before the directory's, on every way out.
 */
 
 use std::{
@@ -997,6 +1035,683 @@ fn run_scenario(r: &mut Report, s: &Scenario) -> Result<(), String> {
     Ok(())
 }
 
+// ---------------------------------------------------------------------------
+// neighbours that change the directory WHILE the set rolls
+// ---------------------------------------------------------------------------
+//
+// Everything above keeps the rest of the directory static while the set works. Here the directory
+// is shared with other writers that run concurrently: a cache that deletes and re-creates its own
+// entries as fast as it can, a cleanup job that builds up a few hundred files and sweeps them away,
+// "another file set rolling" (names with the grammar of a sibling set whose prefix extends ours, and
+// look-alikes of our own names that are NOT members), and a read-only lister. The directory holds
+// hundreds to thousands of foreign entries, so every listing the set takes (one per roll: the set rolls
+// on every batch) overlaps neighbours' deletions - an entry returned by readdir may be gone by the
+// time it is stat'ed. The statement's "whatever else shares the directory" covers that: after every
+// acknowledged flush at most `max_files` members, smallest names deleted first, the acknowledged
+// record on disk exactly once, a restart with `reuse_files` still finds the member with the greatest
+// name, and no foreign entry is touched.
+//
+// Verdicts are exact, not racy: the neighbours run from just before the emit until `blocking_flush`
+// has returned, then they are PAUSED (every neighbour thread parks and acknowledges it) and the
+// directory is read back; neighbours never use names with the set's member grammar, each keeps a
+// model of its own files (it is their only writer), and the models are compared with the directory
+// while everybody is parked. How many neighbour deletions happened between emit and flush is counted
+// per roll; the read-only lister lists the way `read_dir` + `metadata` does and counts the entries it
+// saw vanish between the two, which shows that the overlap really happens at this churn rate.
+
+const CHURN: &str = "while-neighbours-churn-the-directory";
+const NB_RUN: u8 = 0;
+const NB_PAUSE: u8 = 1;
+const NB_STOP: u8 = 2;
+
+#[derive(Default)]
+struct NbShared {
+    mode: std::sync::atomic::AtomicU8,
+    parked: std::sync::Mutex<usize>,
+    cv: std::sync::Condvar,
+    ops: AtomicU64,
+    deletions: AtomicU64,
+    creations: AtomicU64,
+    probe_listings: AtomicU64,
+    probe_listings_overlapped: AtomicU64,
+    probe_vanished: AtomicU64,
+    /// what a neighbour noticed about its OWN files: (class, text)
+    trouble: std::sync::Mutex<Vec<(String, String)>>,
+}
+
+impl NbShared {
+    fn mode(&self) -> u8 {
+        self.mode.load(Ordering::SeqCst)
+    }
+
+    /// Called by a neighbour thread that saw PAUSE: acknowledge, wait, say whether to go on.
+    fn park(&self) -> bool {
+        let mut p = self.parked.lock().unwrap_or_else(|e| e.into_inner());
+        *p += 1;
+        self.cv.notify_all();
+        while self.mode() == NB_PAUSE {
+            p = self.cv.wait_timeout(p, Duration::from_millis(20)).unwrap_or_else(|e| e.into_inner()).0;
+        }
+        *p -= 1;
+        self.mode() != NB_STOP
+    }
+
+    fn trouble(&self, class: &str, what: String) {
+        let mut t = self.trouble.lock().unwrap_or_else(|e| e.into_inner());
+        if t.len() < 50 {
+            t.push((class.to_string(), what));
+        }
+    }
+}
+
+type NbModel = std::sync::Arc<std::sync::Mutex<BTreeMap<String, Vec<u8>>>>;
+
+#[derive(Clone, Debug)]
+enum NbKind {
+    /// `cache-NNNN.bin` / `thumb-NNNN.tmp`: delete if present, else (re-)create
+    Cache { names: usize },
+    /// builds up `batch` files `job-GGGG-NNNN.part`, then sweeps them away in name order
+    Job { batch: usize },
+    /// another file set rolling: sibling-set names and look-alikes of OUR names that are not members;
+    /// creates the next one, deletes its oldest beyond `keep`
+    Sibling { keep: usize },
+    /// lists the directory the way `read_dir` + `metadata` does; writes nothing
+    Probe,
+}
+
+impl NbKind {
+    fn name(&self) -> &'static str {
+        match self {
+            NbKind::Cache { .. } => "cache",
+            NbKind::Job { .. } => "cleanup-job",
+            NbKind::Sibling { .. } => "sibling-set-rolling",
+            NbKind::Probe => "lister",
+        }
+    }
+}
+
+fn sibling_name(set: &SetCfg, n: u64, id: u64) -> String {
+    let (p, e) = (&set.prefix, &set.ext);
+    let period = period_of(set.roll, now_nanos());
+    match n % 6 {
+        0 => format!("{}x.{}.{:08}.{:08x}.{}", p, period, n % 100_000_000, id as u32, e),
+        1 => format!("{}.extra.{}.{:08}.{:08x}.{}", p, period, n % 100_000_000, id as u32, e),
+        // look-alikes of our own names: id that is not hex, extension that extends ours, short counter
+        2 => format!("{}.{}.{:08}.{:07x}g.{}", p, period, n % 100_000_000, (id as u32) >> 4, e),
+        3 => format!("{}.{}.{:08}.{:08x}.{}x", p, period, n % 100_000_000, id as u32, e),
+        4 => format!("{}.{}.{:07}.{:08x}.{}", p, period, n % 10_000_000, id as u32, e),
+        _ => format!("{}_.{}.{:08}.{:08x}.{}", p, period, n % 100_000_000, id as u32, e),
+    }
+}
+
+fn nb_create(sh: &NbShared, dir: &Path, model: &mut BTreeMap<String, Vec<u8>>, name: String, content: Vec<u8>) {
+    let res = std::fs::OpenOptions::new().write(true).create_new(true).open(dir.join(&name)).and_then(|mut f| f.write_all(&content));
+    match res {
+        Ok(()) => {
+            model.insert(name, content);
+            sh.creations.fetch_add(1, Ordering::Relaxed);
+        }
+        Err(e) => sh.trouble("neighbour-could-not-create-its-own-file", format!("a neighbour could not create its own file {}: {}", name, e)),
+    }
+}
+
+fn nb_delete(sh: &NbShared, dir: &Path, model: &mut BTreeMap<String, Vec<u8>>, name: &str) {
+    match std::fs::remove_file(dir.join(name)) {
+        Ok(()) => {
+            sh.deletions.fetch_add(1, Ordering::Relaxed);
+        }
+        // the neighbour is the only writer of this name: somebody else removed it
+        Err(e) => sh.trouble("foreign-entry-gone:neighbour-file", format!("a neighbour found its own file {} gone when it went to delete it ({})", name, e)),
+    }
+    model.remove(name);
+}
+
+fn neighbour_thread(sh: std::sync::Arc<NbShared>, model: NbModel, dir: PathBuf, kind: NbKind, set: SetCfg, pace: Duration, mut g: Rng) {
+    let usable = |n: &str| parse_member(n, &set.prefix, &set.ext).is_none();
+    let mut gen = 0u64;
+    let mut counter = 1_000u64;
+    let mut sweeping = false;
+    loop {
+        match sh.mode() {
+            NB_STOP => return,
+            NB_PAUSE => {
+                if !sh.park() {
+                    return;
+                }
+                continue;
+            }
+            _ => {}
+        }
+        sh.ops.fetch_add(1, Ordering::Relaxed);
+        if !matches!(kind, NbKind::Probe) {
+            std::thread::sleep(pace);
+        }
+        match &kind {
+            NbKind::Cache { names } => {
+                let i = g.usize(*names);
+                let name = if i % 2 == 0 { format!("cache-{:04}.bin", i) } else { format!("thumb-{:04}.tmp", i) };
+                let mut m = model.lock().unwrap_or_else(|e| e.into_inner());
+                if m.contains_key(&name) {
+                    nb_delete(&sh, &dir, &mut m, &name);
+                } else {
+                    gen += 1;
+                    nb_create(&sh, &dir, &mut m, name, format!("cache entry {} generation {}\n", i, gen).into_bytes());
+                }
+            }
+            NbKind::Job { batch } => {
+                let mut m = model.lock().unwrap_or_else(|e| e.into_inner());
+                if sweeping {
+                    match m.keys().next().cloned() {
+                        Some(name) => nb_delete(&sh, &dir, &mut m, &name),
+                        None => {
+                            sweeping = false;
+                            gen += 1;
+                        }
+                    }
+                } else if m.len() < *batch {
+                    let name = format!("job-{:04}-{:04}.part", gen % 10_000, m.len());
+                    nb_create(&sh, &dir, &mut m, name, format!("job {} part\n", gen).into_bytes());
+                } else {
+                    sweeping = true;
+                }
+            }
+            NbKind::Sibling { keep } => {
+                counter += 1;
+                let name = sibling_name(&set, counter, g.next());
+                let mut m = model.lock().unwrap_or_else(|e| e.into_inner());
+                if usable(&name) && !m.contains_key(&name) {
+                    nb_create(&sh, &dir, &mut m, name, fixed_record(70_000_000 + counter % 1_000_000, 24 + (counter % 40) as usize));
+                }
+                while m.len() > *keep {
+                    // its own oldest: smallest counter field is not the smallest name across the name kinds; any own file will do
+                    let pick = g.usize(m.len().min(8));
+                    let name = m.keys().nth(pick).cloned().unwrap();
+                    nb_delete(&sh, &dir, &mut m, &name);
+                }
+            }
+            NbKind::Probe => {
+                let mut vanished = 0u64;
+                if let Ok(rd) = std::fs::read_dir(&dir) {
+                    for e in rd {
+                        let Ok(e) = e else { continue };
+                        if let Err(err) = e.metadata() {
+                            if err.kind() == std::io::ErrorKind::NotFound {
+                                vanished += 1;
+                            }
+                        }
+                        if sh.mode() != NB_RUN {
+                            break;
+                        }
+                    }
+                }
+                sh.probe_listings.fetch_add(1, Ordering::Relaxed);
+                if vanished > 0 {
+                    sh.probe_listings_overlapped.fetch_add(1, Ordering::Relaxed);
+                    sh.probe_vanished.fetch_add(vanished, Ordering::Relaxed);
+                }
+                std::thread::sleep(Duration::from_micros(500));
+            }
+        }
+    }
+}
+
+/// The neighbour threads of one scenario. Dropping it stops and joins them (also when the scenario
+/// fails or panics), so it must be declared AFTER the temporary directory's guard.
+struct Neighbours {
+    shared: std::sync::Arc<NbShared>,
+    handles: Vec<std::thread::JoinHandle<()>>,
+    models: Vec<(&'static str, NbModel)>,
+    threads: usize,
+}
+
+impl Neighbours {
+    /// Populates the neighbours' initial files and starts the threads PAUSED (all parked on return).
+    fn start(dir: &Path, c: &Churn) -> Result<Neighbours, String> {
+        let shared = std::sync::Arc::new(NbShared::default());
+        shared.mode.store(NB_PAUSE, Ordering::SeqCst);
+        let mut nb = Neighbours { shared: shared.clone(), handles: Vec::new(), models: Vec::new(), threads: 0 };
+        let kinds = [NbKind::Cache { names: c.cache_names }, NbKind::Job { batch: c.job_batch }, NbKind::Sibling { keep: c.sibling_keep }, NbKind::Probe];
+        for (k, kind) in kinds.into_iter().enumerate() {
+            let model: NbModel = Default::default();
+            {
+                let mut m = model.lock().unwrap();
+                match &kind {
+                    NbKind::Cache { names } => {
+                        for i in (0..*names).filter(|i| i % 3 != 0) {
+                            let name = if i % 2 == 0 { format!("cache-{:04}.bin", i) } else { format!("thumb-{:04}.tmp", i) };
+                            nb_create(&shared, dir, &mut m, name, format!("cache entry {} generation 0\n", i).into_bytes());
+                        }
+                    }
+                    NbKind::Job { batch } => {
+                        for i in 0..*batch / 2 {
+                            nb_create(&shared, dir, &mut m, format!("job-0000-{:04}.part", i), b"job 0 part\n".to_vec());
+                        }
+                    }
+                    NbKind::Sibling { keep } => {
+                        for i in 0..*keep as u64 {
+                            let name = sibling_name(&c.set, i, 0xabc0_0000 + i);
+                            if parse_member(&name, &c.set.prefix, &c.set.ext).is_none() && !m.contains_key(&name) {
+                                nb_create(&shared, dir, &mut m, name, fixed_record(70_000_000 + i, 30));
+                            }
+                        }
+                    }
+                    NbKind::Probe => {}
+                }
+            }
+            let g = Rng::stream(c.seed, &[11, 80, c.idx, k as u64]);
+            let (sh, md, d, set, kd) = (shared.clone(), model.clone(), dir.to_path_buf(), c.set.clone(), kind.clone());
+            let c_pace = c.pace_us;
+            let h = std::thread::Builder::new()
+                .name(format!("c11real-{}", kind.name()))
+                .spawn(move || neighbour_thread(sh, md, d, kd, set, Duration::from_micros(c_pace), g))
+                .map_err(|e| format!("churn scenario {}: could not start a neighbour thread: {}", c.idx, e))?;
+            nb.handles.push(h);
+            nb.threads += 1;
+            if !matches!(kind, NbKind::Probe) {
+                nb.models.push((kind.name(), model));
+            }
+        }
+        nb.wait_parked()?;
+        Ok(nb)
+    }
+
+    fn wait_parked(&self) -> Result<(), String> {
+        let deadline = std::time::Instant::now() + Duration::from_secs(30);
+        let mut p = self.shared.parked.lock().unwrap_or_else(|e| e.into_inner());
+        while *p < self.threads {
+            if std::time::Instant::now() > deadline {
+                return Err(format!("only {} of {} neighbour threads parked within 30 s", *p, self.threads));
+            }
+            p = self.shared.cv.wait_timeout(p, Duration::from_millis(50)).unwrap_or_else(|e| e.into_inner()).0;
+        }
+        Ok(())
+    }
+
+    /// Every neighbour parks; afterwards the directory only changes through the set under test.
+    fn pause(&self) -> Result<(), String> {
+        self.shared.mode.store(NB_PAUSE, Ordering::SeqCst);
+        self.wait_parked()
+    }
+
+    /// Let the neighbours run and wait (briefly) until each of them is really at work again.
+    fn resume(&self) {
+        let ops0 = self.shared.ops.load(Ordering::Relaxed);
+        self.shared.mode.store(NB_RUN, Ordering::SeqCst);
+        {
+            let _p = self.shared.parked.lock().unwrap_or_else(|e| e.into_inner());
+            self.shared.cv.notify_all();
+        }
+        let t0 = std::time::Instant::now();
+        while self.shared.ops.load(Ordering::Relaxed) < ops0 + 3 && t0.elapsed() < Duration::from_millis(200) {
+            std::thread::yield_now();
+        }
+    }
+
+    /// Stop and join; the panic messages of neighbour threads (none expected).
+    fn stop(&mut self) -> Vec<String> {
+        self.shared.mode.store(NB_STOP, Ordering::SeqCst);
+        {
+            let _p = self.shared.parked.lock().unwrap_or_else(|e| e.into_inner());
+            self.shared.cv.notify_all();
+        }
+        self.handles.drain(..).filter_map(|h| h.join().err().map(|p| panic_message(&p))).collect()
+    }
+}
+
+impl Drop for Neighbours {
+    fn drop(&mut self) {
+        let _ = self.stop();
+    }
+}
+
+#[derive(Clone, Debug)]
+struct Churn {
+    seed: u64,
+    idx: u64,
+    set: SetCfg,
+    pre: Pre,
+    /// foreign files nobody touches; they only make every listing long
+    bulk: usize,
+    cache_names: usize,
+    job_batch: usize,
+    sibling_keep: usize,
+    rolls: usize,
+    restart_every: usize,
+    full_check_every: usize,
+    /// pause of a writing neighbour after each of its operations (unthrottled neighbours keep the directory's
+    /// lock busy and make every listing of the set take tens of milliseconds)
+    pace_us: u64,
+}
+
+fn gen_churn(seed: u64, idx: u64, thorough: bool) -> Churn {
+    let mut g = Rng::stream(seed, &[11, 79, idx]);
+    let roll = *g.pick(&[Roll::Hour, Roll::Hour, Roll::Day, Roll::Minute]);
+    let (prefix, ext) = g.pick(&[("app", "txt"), ("log", "log"), ("svc.events", "ndjson"), ("a", "t")]).clone();
+    let max_files = *g.pick(&[1usize, 2, 3, 3, 4, 6]);
+    let set = SetCfg { prefix: prefix.to_string(), ext: ext.to_string(), roll, max_files, max_size: 300 + g.usize(900), reuse: g.chance(5, 6), json: false };
+    let pre = Pre {
+        foreign: true,
+        member_dir: g.chance(1, 2),
+        symlinks: g.chance(1, 2),
+        non_utf8: g.chance(1, 3),
+        // a surplus from an earlier process that the first roll has to prune under churn
+        old_members: max_files + 1 + g.usize(4),
+        newest_fill_pct: None,
+        newest_torn_tail: false,
+        future_member: false,
+    };
+    Churn {
+        seed,
+        idx,
+        set,
+        pre,
+        bulk: [150usize, 500, 1_000, 1_500][(idx % 4) as usize] + g.usize(100),
+        cache_names: 300 + g.usize(500),
+        job_batch: 150 + g.usize(350),
+        sibling_keep: 30 + g.usize(90),
+        rolls: if thorough { 600 } else { 200 },
+        restart_every: 25 + g.usize(40),
+        full_check_every: 50,
+        pace_us: [40u64, 80, 25, 60][((idx + idx / 4) % 4) as usize],
+    }
+}
+
+fn churn_json(c: &Churn) -> Json {
+    json!({
+        "seed": c.seed, "scenario": c.idx,
+        "set": {"prefix": c.set.prefix, "ext": c.set.ext, "roll_by": c.set.roll.name(), "max_files": c.set.max_files, "max_file_size_bytes": c.set.max_size, "reuse_files": c.set.reuse, "writer": "fixed-size"},
+        "pre_existing": format!("{:?}", c.pre),
+        "static_bulk_files": c.bulk, "cache_names": c.cache_names, "cleanup_job_batch": c.job_batch, "sibling_set_keeps": c.sibling_keep,
+        "neighbour_pause_after_each_operation_us": c.pace_us, "rolls": c.rolls, "restart_every": c.restart_every, "full_directory_comparison_every": c.full_check_every,
+    })
+}
+
+/// The set's own members (regular files with the exact grammar) and their bytes. Only exact while the
+/// neighbours are parked and the set's worker is idle.
+fn own_members(dir: &Path, set: &SetCfg) -> std::io::Result<BTreeMap<String, Vec<u8>>> {
+    let mut out = BTreeMap::new();
+    for e in std::fs::read_dir(dir)? {
+        let e = e?;
+        let name = e.file_name();
+        let Some(name) = name.to_str() else { continue };
+        if parse_member(name, &set.prefix, &set.ext).is_none() {
+            continue;
+        }
+        if std::fs::symlink_metadata(e.path())?.file_type().is_file() {
+            out.insert(name.to_string(), std::fs::read(e.path())?);
+        }
+    }
+    Ok(out)
+}
+
+fn run_churn(r: &mut Report, c: &Churn) -> Result<(), String> {
+    let io = |what: &str, e: std::io::Error| format!("churn scenario {}: {}: {}", c.idx, what, e);
+    let tmp = make_tmp(c.seed, 1_000_000 + c.idx).map_err(|e| io("temporary directory", e))?;
+    let root = tmp.0.clone();
+    let dir = root.join("logs");
+    std::fs::create_dir(&dir).map_err(|e| io("log directory", e))?;
+    let mut g = Rng::stream(c.seed, &[11, 81, c.idx]);
+    let as_scenario = Scenario { seed: c.seed, idx: c.idx, sets: vec![c.set.clone()], pre: c.pre.clone(), lives: Vec::new() };
+    populate(&mut g, &root, &dir, &as_scenario).map_err(|e| io("populate", e))?;
+    for i in 0..c.bulk {
+        std::fs::write(dir.join(format!("bulk-{:05}.dat", i)), format!("bulk {}\n", i)).map_err(|e| io("populate", e))?;
+    }
+    let sets = [c.set.clone()];
+    let case = |extra: Json| json!({"part": "real-filesystem-churn", "seed": c.seed, "scenario": c.idx, "config": churn_json(c), "at": extra});
+    let sig = |s: &str| format!("C11:realfs:{}:{}", s, CHURN);
+
+    let outside_baseline = snapshot(&root.join("outside")).map_err(|e| io("read back", e))?;
+    let static_baseline = foreign_of(&snapshot(&dir).map_err(|e| io("read back", e))?, &sets);
+    // (declared after `tmp`: stopped and joined before the directory is removed, on every way out)
+    let mut nb = Neighbours::start(&dir, c).map_err(|e| format!("churn scenario {}: {}", c.idx, e))?;
+    let sh = nb.shared.clone();
+    let mut files: Option<emit_file::FileSet> = None;
+    let mut metrics: BTreeMap<String, u64> = BTreeMap::new();
+    let mut before = own_members(&dir, &c.set).map_err(|e| io("read back", e))?;
+    r.observe("realfs:churn:scenarios", 1);
+    r.observe("realfs:churn:foreign-entries-at-the-start", (static_baseline.len() + nb.models.iter().map(|(_, m)| m.lock().unwrap().len()).sum::<usize>()) as u64);
+
+    let max = c.set.max_size;
+    let mut vid = 1u64;
+    let (mut rolls_done, mut rolls_overlapped, mut deletions_during_flushes, mut own_deletions, mut reuse_judged, mut restarts) = (0u64, 0u64, 0u64, 0u64, 0u64, 0u64);
+    let mut peak_entries = 0usize;
+    for roll in 0..c.rolls {
+        let restart = files.is_none() || roll % c.restart_every == 0;
+        let restart_next = (roll + 1) % c.restart_every == 0;
+        // ---- the neighbours run from here until the flush has returned ----
+        nb.resume();
+        if restart {
+            drop(files.take());
+            files = Some(spawn_set(&dir, &c.set));
+            metrics = BTreeMap::new();
+            if roll > 0 {
+                restarts += 1;
+            }
+        }
+        let newest_before = before.keys().next_back().cloned();
+        let len = match (&newest_before, restart && roll > 0 && c.set.reuse) {
+            // first round after a restart: fits on top of the member with the greatest name (room was left for it)
+            (Some(nbf), true) if before[nbf].len() + SEP.len() + MIN_REC <= max => MIN_REC + g.usize(max - before[nbf].len() - SEP.len() - MIN_REC + 1),
+            // the round before a restart leaves room; every other round fills more than half a file: never fits on top of the previous one
+            _ if restart_next => max / 2 + 1 + g.usize(max * 7 / 10 - max / 2),
+            _ => max / 2 + 1 + g.usize(max - max / 2),
+        };
+        let t_before = now_nanos();
+        let del0 = sh.deletions.load(Ordering::Relaxed);
+        emit_record(files.as_ref().unwrap(), &c.set, vid, len);
+        if !files.as_ref().unwrap().blocking_flush(FLUSH_TIMEOUT) {
+            return Err(format!("churn scenario {}: blocking_flush did not return true within {:?} (roll {})", c.idx, FLUSH_TIMEOUT, roll));
+        }
+        let del1 = sh.deletions.load(Ordering::Relaxed);
+        let t_after = now_nanos();
+        // ---- everybody parks; from here on the read-back is exact ----
+        nb.pause().map_err(|e| format!("churn scenario {}: {}", c.idx, e))?;
+        let after = own_members(&dir, &c.set).map_err(|e| io("read back", e))?;
+        r.observe("realfs:churn:milliseconds-between-emit-and-flush-return", (t_after - t_before) / 1_000_000);
+        let m = sample_metrics(files.as_ref().unwrap());
+        let delta = |k: &str| m.get(k).copied().unwrap_or(0).saturating_sub(metrics.get(k).copied().unwrap_or(0));
+        let failures: u64 = FAILURE_METRICS.iter().map(|k| delta(k)).sum();
+        let failed: Vec<String> = FAILURE_METRICS.iter().filter(|k| delta(k) > 0).map(|k| format!("{}+{}", k, delta(k))).collect();
+        own_deletions += delta("file_delete");
+        r.observe("realfs:churn:failure-metrics", failures);
+        r.observe("realfs:churn:rounds-acknowledged", 1);
+        if del1 > del0 {
+            rolls_overlapped += 1;
+            deletions_during_flushes += del1 - del0;
+        }
+        let at = |what: &str| json!({"roll": roll, "after_restart": restart, "record": {"vid": vid, "bytes": len}, "what": what,
+            "neighbour_deletions_between_emit_and_flush": del1 - del0, "failure_metrics_of_the_set_in_this_round": failed,
+            "members_before": before.iter().map(|(n, b)| json!([n, b.len()])).collect::<Vec<_>>(),
+            "members_after": after.iter().map(|(n, b)| json!([n, b.len()])).collect::<Vec<_>>()});
+        let created: Vec<&String> = after.keys().filter(|n| !before.contains_key(*n)).collect();
+        let deleted: Vec<&String> = before.keys().filter(|n| !after.contains_key(*n)).collect();
+        let p_lo = period_of(c.set.roll, t_before);
+        let p_hi = period_of(c.set.roll, t_after);
+        if !created.is_empty() {
+            rolls_done += 1;
+        }
+        // (a) at most max_files members
+        r.observe("realfs:churn:member-count-judged", 1);
+        if after.len() > c.set.max_files {
+            r.violation(
+                &sig("more-than-max-files"),
+                &format!("{} members after an acknowledged flush, max_files = {}; {} neighbour deletions happened between the emit and the flush; the set's failure metrics in this round: {:?}", after.len(), c.set.max_files, del1 - del0, failed),
+                case(at("member count")),
+            );
+        }
+        // (b) smallest names go first: the members with the greatest names are the ones retained
+        for d in &deleted {
+            if let Some(survivor) = before.keys().filter(|n| after.contains_key(*n)).find(|n| *n < *d) {
+                r.violation(&sig("retention-deleted-a-newer-member-first"), &format!("{} was deleted while {} (a smaller name) was kept", d, survivor), case(at("retention order")));
+            }
+        }
+        // (c) the acknowledged record is on disk, once
+        let mut places: Vec<&String> = Vec::new();
+        for (n, bytes) in &after {
+            for line in bytes.split(|b| *b == b'\n') {
+                if vid_of_line(line) == Some(vid) {
+                    places.push(n);
+                }
+            }
+        }
+        r.observe("realfs:churn:acknowledged-records-looked-up", 1);
+        if places.len() != 1 {
+            r.violation(
+                &sig(if places.is_empty() { "acknowledged-record-missing" } else { "acknowledged-record-more-than-once" }),
+                &format!("record {} was acknowledged by a flush and is on disk {} times (in {:?})", vid, places.len(), places),
+                case(at("records")),
+            );
+        }
+        // members are append-only, stay within the limit, and new names carry a period of the round's window
+        for (n, old) in &before {
+            if let Some(new) = after.get(n) {
+                if !new.starts_with(old) {
+                    r.violation(&sig("member-not-append-only"), &format!("{}: what was read before the round ({} bytes) is not a prefix of what is read after it ({} bytes)", n, old.len(), new.len()), case(at("append-only")));
+                }
+                if new.len() != old.len() && places.first() != Some(&n) {
+                    r.violation(&sig("appended-to-a-member-that-is-not-current"), &format!("{} grew but the round's record is in {:?}", n, places), case(at("current file")));
+                }
+            }
+        }
+        for n in created.iter().copied().chain(places.iter().copied()) {
+            if after[n].len() > max + SEP.len() {
+                r.violation(&sig("file-over-size-limit"), &format!("{} holds {} bytes, limit {}", n, after[n].len(), max), case(at("size limit")));
+            }
+        }
+        for n in &created {
+            let period = parse_member(n, &c.set.prefix, &c.set.ext).unwrap_or("");
+            if !(period >= p_lo.as_str() && period <= p_hi.as_str()) {
+                r.violation(&sig("new-member-period-outside-the-wall-clock-window"), &format!("{} was created in a round whose wall-clock window is {} .. {}", n, p_lo, p_hi), case(at("name")));
+            }
+        }
+        // (d) a restart with reuse_files still finds the member with the greatest name
+        if restart && roll > 0 && c.set.reuse {
+            if let Some(nbf) = &newest_before {
+                let period = parse_member(nbf, &c.set.prefix, &c.set.ext).unwrap_or("");
+                if period == p_lo && period == p_hi && before[nbf].len() + SEP.len() + len <= max {
+                    reuse_judged += 1;
+                    r.observe("realfs:churn:reuse-after-restart-judged", 1);
+                    let grew = after.get(nbf).map(|b| b.len() > before[nbf].len()).unwrap_or(false);
+                    if !grew || !created.is_empty() {
+                        r.violation(
+                            &sig("reuse-did-not-find-the-newest-member"),
+                            &format!(
+                                "restart with reuse_files(true): {} (period {}, {} bytes, limit {}) had room for the {}-byte round and its period is current, yet {}; failure metrics of the set: {:?}",
+                                nbf, period, before[nbf].len(), max, len,
+                                if created.is_empty() { "it did not grow".to_string() } else { format!("{:?} was started", created) }, failed
+                            ),
+                            case(at("reuse after restart")),
+                        );
+                    }
+                } else {
+                    r.observe("realfs:churn:reuse-after-restart-not-judged:period-changed-or-no-room", 1);
+                }
+            }
+        }
+        // what the neighbours noticed about their own files since the last pause
+        for (class, what) in std::mem::take(&mut *sh.trouble.lock().unwrap_or_else(|e| e.into_inner())) {
+            if class.starts_with("foreign-entry-gone") {
+                r.violation(&sig(&class), &what, case(at("neighbour's own bookkeeping")));
+            } else {
+                return Err(format!("churn scenario {}: {}", c.idx, what));
+            }
+        }
+        // (e) every N rolls and at the end: the whole directory against the static baseline + the neighbours' models
+        if (roll + 1) % c.full_check_every == 0 || roll + 1 == c.rolls {
+            let snap = snapshot(&dir).map_err(|e| io("read back", e))?;
+            peak_entries = peak_entries.max(snap.len());
+            let mut foreign_now = foreign_of(&snap, &sets);
+            r.observe("realfs:churn:full-directory-comparisons", 1);
+            r.observe("realfs:churn:foreign-entries-compared", foreign_now.len() as u64);
+            for (kind, model) in &nb.models {
+                for (name, content) in model.lock().unwrap_or_else(|e| e.into_inner()).iter() {
+                    match foreign_now.remove(name.as_bytes()) {
+                        Some(Entry::File(b)) if &b == content => {}
+                        Some(other) => r.violation(&sig(&format!("foreign-entry-changed:neighbour-file:{}", kind)), &format!("{} (owned by the {} neighbour) is now {} ({})", name, kind, other.kind(), match &other { Entry::File(b) => format!("{} bytes instead of {}", b.len(), content.len()), _ => String::new() }), case(at("foreign entries"))),
+                        None => r.violation(&sig(&format!("foreign-entry-gone:neighbour-file:{}", kind)), &format!("{} (owned by the {} neighbour, which did not delete it) is gone", name, kind), case(at("foreign entries"))),
+                    }
+                }
+            }
+            let outside_now = snapshot(&root.join("outside")).map_err(|e| io("read back", e))?;
+            for (which, base, now) in [("in the log directory", &static_baseline, &foreign_now), ("next to the log directory", &outside_baseline, &outside_now)] {
+                for (n, e) in base {
+                    match now.get(n) {
+                        None => r.violation(&sig(&format!("foreign-entry-gone:{}", e.kind())), &format!("{} ({}, {}) is gone after roll {}", show_name(n), e.kind(), which, roll), case(at("foreign entries"))),
+                        Some(x) if x != e => r.violation(&sig(&format!("foreign-entry-changed:{}", e.kind())), &format!("{} ({}, {}) changed", show_name(n), e.kind(), which), case(at("foreign entries"))),
+                        _ => {}
+                    }
+                }
+                for (n, e) in now {
+                    if !base.contains_key(n) {
+                        r.violation(&sig("entry-created-that-is-not-a-member"), &format!("{} ({}) appeared {}; it is not a member of the set, not a neighbour's file and was not there at the start", show_name(n), e.kind(), which), case(at("foreign entries")));
+                    }
+                }
+            }
+        }
+        before = after;
+        metrics = m;
+        vid += 1;
+    }
+    // (still paused) the emitter goes first, then the neighbours, then the directory
+    drop(files);
+    let panics = nb.stop();
+    if let Some(p) = panics.first() {
+        return Err(format!("churn scenario {}: a neighbour thread panicked: {}", c.idx, p));
+    }
+    let (ops, nb_del, nb_cre) = (sh.ops.load(Ordering::Relaxed), sh.deletions.load(Ordering::Relaxed), sh.creations.load(Ordering::Relaxed));
+    let (pl, plo, pv) = (sh.probe_listings.load(Ordering::Relaxed), sh.probe_listings_overlapped.load(Ordering::Relaxed), sh.probe_vanished.load(Ordering::Relaxed));
+    r.observe("realfs:churn:rolls(a-new-file-per-batch)", rolls_done);
+    r.observe("realfs:churn:rolls-with-neighbour-deletions-between-emit-and-flush", rolls_overlapped);
+    r.observe("realfs:churn:neighbour-deletions-between-emit-and-flush", deletions_during_flushes);
+    r.observe("realfs:churn:neighbour-deletions", nb_del);
+    r.observe("realfs:churn:neighbour-creations", nb_cre);
+    r.observe("realfs:churn:files-deleted-by-the-set(metric)", own_deletions);
+    r.observe("realfs:churn:restarts", restarts);
+    r.observe("realfs:churn:lister:listings", pl);
+    r.observe("realfs:churn:lister:listings-in-which-an-entry-vanished-between-readdir-and-stat", plo);
+    r.observe("realfs:churn:lister:entries-vanished-between-readdir-and-stat", pv);
+    if rolls_overlapped * 2 >= c.rolls as u64 && plo > 0 {
+        r.nontrivial(&("real-filesystem-churn", c.idx, c.seed));
+    }
+    if rolls_overlapped == 0 {
+        return Err(format!("churn scenario {}: no neighbour deleted anything between an emit and its flush in {} rolls - the neighbours did not run", c.idx, c.rolls));
+    }
+    if r.wants_sample() {
+        r.sample(|| json!({"part": "real-filesystem-churn", "config": churn_json(c), "directory_entries_at_most": peak_entries,
+            "rolls": rolls_done, "rolls_with_neighbour_deletions_between_emit_and_flush": rolls_overlapped, "neighbour_deletions_between_emit_and_flush": deletions_during_flushes,
+            "neighbour_operations": ops, "neighbour_deletions": nb_del, "neighbour_creations": nb_cre, "files_deleted_by_the_set": own_deletions,
+            "restarts": restarts, "reuse_after_restart_judged": reuse_judged,
+            "lister": {"listings": pl, "listings_in_which_an_entry_vanished_between_readdir_and_stat": plo, "entries_vanished": pv}}));
+    }
+    drop(nb);
+    drop(tmp);
+    Ok(())
+}
+
+fn evaluate_churn(r: &mut Report, seed: u64, idx: u64, thorough: bool) {
+    let c = gen_churn(seed, idx, thorough);
+    r.eval();
+    match catch(|| {
+        let mut child = r.child();
+        let res = run_churn(&mut child, &c);
+        (child, res)
+    }) {
+        Ok((child, res)) => {
+            r.merge(child);
+            if let Err(why) = res {
+                r.inconclusive(why);
+            }
+        }
+        Err(msg) => {
+            r.violation(
+                &format!("C11:realfs:panic:{}", CHURN),
+                &format!("the scenario panicked: {}", msg),
+                json!({"part": "real-filesystem-churn", "seed": seed, "scenario": idx, "config": churn_json(&c)}),
+            );
+        }
+    }
+}
+
 fn evaluate(r: &mut Report, seed: u64, idx: u64, thorough: bool) {
     let s = gen_scenario(seed, idx, thorough);
     r.eval();
@@ -1029,7 +1744,10 @@ fn main() {
         &args,
         "one evaluation = one scenario on the real filesystem (real emit_file::set(..).spawn(): StdFilesystem, system clock, random ids) in a private temporary directory: \
          pre-existing contents x configuration x 3-5 process lifetimes x 1-3 acknowledged rounds, the directory read back before and after every round; \
-         non-trivial = scenarios in which a restarted set appended to its reused newest member at least once, at least once found that member without room for the round and started a new file, and deleted at least one file",
+         non-trivial = scenarios in which a restarted set appended to its reused newest member at least once, at least once found that member without room for the round and started a new file, and deleted at least one file. \
+         Churn scenarios (one evaluation each): 200 / 600 rolls (one new file per acknowledged flush, restarts in between) while three neighbour threads create, delete and re-create their own files in the \
+         same directory of roughly 600-2800 entries and a fourth lists it; read-backs with the neighbours paused; non-trivial = neighbours deleted files between emit and flush in at least half of the rolls and the \
+         read-only lister saw an entry vanish between readdir and stat",
     );
     sweep_stale();
     let thorough = args.thorough();
@@ -1037,8 +1755,13 @@ fn main() {
         let case = load_replay(path);
         let seed = case.get("seed").and_then(|v| v.as_u64()).unwrap_or(args.seed);
         let idx = case.get("scenario").and_then(|v| v.as_u64()).unwrap_or(0);
+        let churn = case.get("part").and_then(|v| v.as_str()) == Some("real-filesystem-churn");
         for _ in 0..3 {
-            evaluate(&mut r, seed, idx, thorough);
+            if churn {
+                evaluate_churn(&mut r, seed, idx, thorough);
+            } else {
+                evaluate(&mut r, seed, idx, thorough);
+            }
         }
         std::process::exit(r.finish());
     }
@@ -1068,6 +1791,33 @@ fn main() {
     for c in children {
         r.merge(c);
     }
+    // neighbours that change the directory while the set rolls: each scenario brings its own four neighbour
+    // threads, so at most four scenarios at a time
+    let n_churn = args.get_u64("churn", args.n(4, 24));
+    let next = AtomicU64::new(0);
+    let children: Vec<Report> = std::thread::scope(|sc| {
+        let handles: Vec<_> = (0..(n_churn as usize).min(4))
+            .map(|_| {
+                let mut child = r.child();
+                let next = &next;
+                sc.spawn(move || {
+                    loop {
+                        let i = next.fetch_add(1, Ordering::Relaxed);
+                        if i >= n_churn {
+                            break;
+                        }
+                        evaluate_churn(&mut child, seed, i, thorough);
+                    }
+                    child
+                })
+            })
+            .collect();
+        handles.into_iter().map(|h| h.join().expect("worker")).collect()
+    });
+    for c in children {
+        r.merge(c);
+    }
+    r.set("churn_scenarios", json!(n_churn));
     r.set("scenarios", json!(n));
     r.set("temporary_directories_under", json!(tmp_base().display().to_string()));
     std::process::exit(r.finish());
